@@ -62,3 +62,17 @@ Definition span_ok (now weekend : Z) (obs : Z * Z) : bool :=
   && (weekday (e / 86400) =? weekend)
   && forallb (fun j => negb (weekday (b / 86400 + j) =? weekend) || (e =? b + j * 86400))
        [1; 2; 3; 4; 5; 6; 7].
+
+(* A second process of the same program (same Program/Version/GoVersion/GOOS/
+   GOARCH lines) opening its counter file: the file name carries only the
+   begin date, so it meets the first process's file iff the begin dates agree;
+   openMapped then refuses the file unless its header - which holds TimeBegin
+   and TimeEnd - is byte for byte the second process's own.  [None]: refused
+   (counting stays off in that process); [Some s]: the recorded span of the
+   file its increments go to. *)
+Definition header_matches (recorded mine : Z * Z) : bool :=
+  beq (meta_time_begin recorded) (meta_time_begin mine) && beq (meta_time_end recorded) (meta_time_end mine).
+Definition second_opener (first mine : Z * Z) : option (Z * Z) :=
+  if beq (name_date first) (name_date mine)
+  then (if header_matches first mine then Some first else None)
+  else Some mine.
